@@ -6,16 +6,17 @@
 # all worktrees of a repository: concurrent agents exchanged their changes through it once).
 wt="$1"; id="$2"; shift 2
 cd "$wt" || exit 2
-git diff -- bronzebeard > /tmp/intake_cur.diff
-if ! cmp -s /tmp/intake_cur.diff _seeded/patch.diff; then echo "!! worktree diff differs from _seeded/patch.diff (using the worktree diff)"; fi
-cp /tmp/intake_cur.diff _seeded/patch.diff
+git diff -- bronzebeard > /tmp/intake_cur.$$.diff
+if ! cmp -s /tmp/intake_cur.$$.diff _seeded/patch.diff; then echo "!! worktree diff differs from _seeded/patch.diff (using the worktree diff)"; fi
+cp /tmp/intake_cur.$$.diff _seeded/patch.diff
 echo "== change: $(grep -c '^[+-][^+-]' _seeded/patch.diff) changed lines in $(grep -c '^diff ' _seeded/patch.diff) file(s)"
 echo "== tests with the change"; /venv/bin/python -m pytest -q -p no:cacheprovider 2>&1 | tail -1
-echo "== demo with the change (expect exit 1)"; /venv/bin/python _seeded/demo.py > /tmp/demo_with.txt 2>&1; echo "exit $?"; tail -2 /tmp/demo_with.txt
+echo "== demo with the change (expect exit 1)"; /venv/bin/python _seeded/demo.py > /tmp/demo_with.$$.txt 2>&1; echo "exit $?"; tail -2 /tmp/demo_with.$$.txt
 git apply -R _seeded/patch.diff || exit 2
-echo "== demo without the change (expect exit 0)"; /venv/bin/python _seeded/demo.py > /tmp/demo_without.txt 2>&1; echo "exit $?"; tail -2 /tmp/demo_without.txt
+echo "== demo without the change (expect exit 0)"; /venv/bin/python _seeded/demo.py > /tmp/demo_without.$$.txt 2>&1; echo "exit $?"; tail -2 /tmp/demo_without.$$.txt
 git apply _seeded/patch.diff || exit 2
 mkdir -p /verif/seeded/$id
 cp _seeded/patch.diff _seeded/demo.py _seeded/meta.json /verif/seeded/$id/ 2>/dev/null
 echo "== checks against the change (scratch copy)"
 /verif/tools_seeded_all.py --no-record --checks "$*" --only $id
+rm -f /tmp/intake_cur.$$.diff /tmp/demo_with.$$.txt /tmp/demo_without.$$.txt
